@@ -203,24 +203,45 @@ func (g *Generator) generateBytesFieldMarshal(gf *protogen.GeneratedFile, fieldI
 	jsonName := field.Desc.JSONName()
 	encoding := fieldInfo.Encoding
 
-	gf.P("// Encode ", field.Desc.Name(), " with ", encoding.String())
-	gf.P("if len(x.", goName, ") > 0 {")
-
-	//exhaustive:ignore -- only non-default encodings reach here; UNSPECIFIED/BASE64 are filtered by hasBytesEncodingFields
-	switch encoding {
-	case http.BytesEncoding_BYTES_ENCODING_HEX:
-		gf.P(`raw["`, jsonName, `"], _ = json.Marshal(hex.EncodeToString(x.`, goName, `))`)
-	case http.BytesEncoding_BYTES_ENCODING_BASE64_RAW:
-		gf.P(`raw["`, jsonName, `"], _ = json.Marshal(base64.RawStdEncoding.EncodeToString(x.`, goName, `))`)
-	case http.BytesEncoding_BYTES_ENCODING_BASE64URL:
-		gf.P(`raw["`, jsonName, `"], _ = json.Marshal(base64.URLEncoding.EncodeToString(x.`, goName, `))`)
-	case http.BytesEncoding_BYTES_ENCODING_BASE64URL_RAW:
-		gf.P(`raw["`, jsonName, `"], _ = json.Marshal(base64.RawURLEncoding.EncodeToString(x.`, goName, `))`)
-	default:
-		// Should not be reached since we only collect non-default encodings
+	// The Go expression that encodes a []byte
+	encode := func(arg string) string {
+		//exhaustive:ignore -- only non-default encodings reach here; UNSPECIFIED/BASE64 are filtered by hasBytesEncodingFields
+		switch encoding {
+		case http.BytesEncoding_BYTES_ENCODING_HEX:
+			return "hex.EncodeToString(" + arg + ")"
+		case http.BytesEncoding_BYTES_ENCODING_BASE64_RAW:
+			return "base64.RawStdEncoding.EncodeToString(" + arg + ")"
+		case http.BytesEncoding_BYTES_ENCODING_BASE64URL:
+			return "base64.URLEncoding.EncodeToString(" + arg + ")"
+		case http.BytesEncoding_BYTES_ENCODING_BASE64URL_RAW:
+			return "base64.RawURLEncoding.EncodeToString(" + arg + ")"
+		default:
+			// Should not be reached since we only collect non-default encodings
+			return "base64.StdEncoding.EncodeToString(" + arg + ")"
+		}
 	}
 
-	gf.P("}")
+	gf.P("// Encode ", field.Desc.Name(), " with ", encoding.String())
+	switch {
+	case field.Desc.IsList():
+		// A repeated field: every element is encoded
+		gf.P("if len(x.", goName, ") > 0 {")
+		gf.P("encoded := make([]string, 0, len(x.", goName, "))")
+		gf.P("for _, element := range x.", goName, " {")
+		gf.P("encoded = append(encoded, ", encode("element"), ")")
+		gf.P("}")
+		gf.P(`raw["`, jsonName, `"], _ = json.Marshal(encoded)`)
+		gf.P("}")
+	case field.Oneof != nil && !field.Oneof.Desc.IsSynthetic():
+		// A oneof member lives in its wrapper type and is written when it is the selected member
+		gf.P("if member, ok := x.Get", field.Oneof.GoName, "().(*", field.GoIdent, "); ok {")
+		gf.P(`raw["`, jsonName, `"], _ = json.Marshal(`, encode("member."+goName), `)`)
+		gf.P("}")
+	default:
+		gf.P("if len(x.", goName, ") > 0 {")
+		gf.P(`raw["`, jsonName, `"], _ = json.Marshal(`, encode("x."+goName), `)`)
+		gf.P("}")
+	}
 	gf.P()
 }
 
@@ -270,6 +291,11 @@ func (g *Generator) generateBytesFieldUnmarshal(gf *protogen.GeneratedFile, fiel
 	jsonName := field.Desc.JSONName()
 	encoding := fieldInfo.Encoding
 
+	if field.Desc.IsList() {
+		g.generateBytesListUnmarshal(gf, fieldInfo)
+		return
+	}
+
 	gf.P("// Decode ", field.Desc.Name(), " from ", encoding.String(), " to standard base64")
 	gf.P(`if v, ok := raw["`, jsonName, `"]; ok {`)
 	gf.P("var s string")
@@ -301,6 +327,44 @@ func (g *Generator) generateBytesFieldUnmarshal(gf *protogen.GeneratedFile, fiel
 		// Should not be reached
 	}
 
+	gf.P("}")
+	gf.P("}")
+	gf.P()
+}
+
+// generateBytesListUnmarshal decodes every element of a repeated bytes field from the configured encoding and
+// re-encodes it as standard base64 for protojson. If an element cannot be decoded the member is left as it is
+// and protojson reports the error.
+func (g *Generator) generateBytesListUnmarshal(gf *protogen.GeneratedFile, fieldInfo *BytesEncodingFieldInfo) {
+	jsonName := fieldInfo.Field.Desc.JSONName()
+	decoder := "base64.StdEncoding.DecodeString"
+	//exhaustive:ignore -- only non-default encodings reach here
+	switch fieldInfo.Encoding {
+	case http.BytesEncoding_BYTES_ENCODING_HEX:
+		decoder = "hex.DecodeString"
+	case http.BytesEncoding_BYTES_ENCODING_BASE64_RAW:
+		decoder = "base64.RawStdEncoding.DecodeString"
+	case http.BytesEncoding_BYTES_ENCODING_BASE64URL:
+		decoder = "base64.URLEncoding.DecodeString"
+	case http.BytesEncoding_BYTES_ENCODING_BASE64URL_RAW:
+		decoder = "base64.RawURLEncoding.DecodeString"
+	default:
+	}
+	gf.P("// Decode the elements of ", fieldInfo.Field.Desc.Name(), " from ", fieldInfo.Encoding.String(), " to standard base64")
+	gf.P(`if v, ok := raw["`, jsonName, `"]; ok {`)
+	gf.P("var elements []string")
+	gf.P("if err := json.Unmarshal(v, &elements); err == nil {")
+	gf.P("recoded := make([]string, 0, len(elements))")
+	gf.P("for _, element := range elements {")
+	gf.P("decoded, decErr := ", decoder, "(element)")
+	gf.P("if decErr != nil {")
+	gf.P("break")
+	gf.P("}")
+	gf.P("recoded = append(recoded, base64.StdEncoding.EncodeToString(decoded))")
+	gf.P("}")
+	gf.P("if len(recoded) == len(elements) {")
+	gf.P(`raw["`, jsonName, `"], _ = json.Marshal(recoded)`)
+	gf.P("}")
 	gf.P("}")
 	gf.P("}")
 	gf.P()
